@@ -129,10 +129,10 @@ DT(c) == DecoTab[c]
 \* `if: ... attr` followed by `else: "string"`.
 HeadsOne == {<<"none", 0>>}
 HeadsQuick == {<<"none", 0>>, <<"cmt", 2>>}
-HeadsAll == {"none", "cmt"} \X {0, 1, 2}
+HeadsAll == {<<"none", 0>>, <<"none", 1>>, <<"cmt", 0>>, <<"cmt", 2>>}
 HeadsBom == {<<"bom", 0>>, <<"bom", 1>>}
 CoreForms == {"defdoc2", "cls", "clsdoc1", "asg", "asgp3", "str1", "if", "else", "cmt", "init", "sasg"}
-               \cup (IF Deep THEN {"fromp4", "with"} ELSE {})
+               \cup (IF Deep THEN {"fromp4"} ELSE {})
 CleanForms == {"def", "defh2", "defdoc1", "defdoc2", "defdocp3", "defh2doc2", "adef", "def1l", "def1l2", "init",
                "cls", "clsh3", "clsdoc1", "clsdoc2", "cls1l",
                "asg", "asgp3", "asgs2", "asgs2c0", "asgb2", "ann", "ann0", "annp3", "tup", "chain", "semi",
@@ -160,7 +160,7 @@ DomTab == [
                   HeadsOne, IF Deep THEN 5 ELSE 4, {"doc"})
                 EXCEPT !.leak = TRUE, !.xcap = 4],
   bom    |-> Dom({"def", "asg", "cls"}, {"none"}, HeadsBom, 2, {"load"}),
-  twin   |-> [Dom(TwinForms \cup (IF Deep THEN {"def", "cmt", "defh2", "ann0", "asgp3"} ELSE {}),
+  twin   |-> [Dom(TwinForms \cup (IF Deep THEN {"def", "cmt", "asgp3"} ELSE {}),
                   IF Deep THEN {"none", "d1"} ELSE {"none"},
                   {<<"none", 1>>} \cup (IF Deep THEN {<<"cmt", 0>>} ELSE {}), 3, {}) EXCEPT !.twin = TRUE],
   twinx  |-> [Dom(TwinForms, {"none", "d1"}, HeadsOne, IF Deep THEN 3 ELSE 2, {"file", "text"})
